@@ -34,6 +34,7 @@ RULE = (
     "ANIMATIONS alias or a negative value; distinct = distinct canonical JSON of the case"
 )
 RULE += " " + "Added after the seeding rounds: stops of length zero and minus zero ('-0.000', '-0', '= -0.000') are not negative and must be converted."
+RULE += " " + 'Round 7: era names among the six chart fields (Basic, Light, Heavy, Maniac, Oni, Expert ...; steps types in other spellings) - copied as they are.'
 ASSUMPTIONS = [
     "SSCSimfile.blank() / SSCChart.blank() are the documented default templates and are read through the public API",
     "TimingData and NoteData are the library's readers named by the property; their own correctness is C07/C14/C15",
